@@ -13,6 +13,7 @@ import (
 
 // parserFacts: what config.ParseData establishes about the values it puts into config.Config.
 type parserFacts struct {
+	leavesBusy map[*ssa.Alloc]bool
 	c  *Ctx
 	p  *Program
 	fn *ssa.Function
@@ -193,10 +194,14 @@ func (pf *parserFacts) proveRange(v ssa.Value, at *ssa.BasicBlock, lo, hi int64,
 			h2 = thi
 		}
 		ok, why := pf.proveRange(x.X, at, l2, h2, depth+1)
-		if !ok {
-			return false, fmt.Sprintf("operand of %s(...) not proven within [%d,%d]: %s", x.Type(), l2, h2, why)
+		if ok {
+			return true, "narrowing of a value in range: " + why
 		}
-		return true, "narrowing of a value in range: " + why
+		// the conditions may speak about the converted value itself (n := int(n64); if n < 0 || n > 15 { return err })
+		if ok2, why2 := pf.proveByGuards(v, at, lo, hi); ok2 {
+			return true, why2
+		}
+		return false, fmt.Sprintf("operand of %s(...) not proven within [%d,%d]: %s", x.Type(), l2, h2, why)
 	case *ssa.ChangeType:
 		return pf.proveRange(x.X, at, lo, hi, depth+1)
 	case *ssa.Phi:
@@ -215,6 +220,14 @@ func (pf *parserFacts) proveRange(v ssa.Value, at *ssa.BasicBlock, lo, hi int64,
 				pf.extra = append(pf.extra, Atom{Cond: pf.view(pred.Parent()).Term(ifi.Cond), Taken: pred.Succs[0] == x.Block(), Instr: ifi})
 			}
 			ok, why := pf.proveRange(e, pred, lo, hi, depth+1)
+			if !ok && at != pred && x.Block().Dominates(at) {
+				// the value was picked early and is validated later, before this use (`v := cfg.X; if v == 0 { v = 64 }` ...
+				// `if cfg.X < 0 || cfg.X > 127 { return err }` ... use of v): the conditions that dominate the use speak about
+				// the same access path, the edge's own condition still holds for the value that took this edge
+				if ok2, why2 := pf.proveRange(e, at, lo, hi, depth+1); ok2 {
+					ok, why = true, why2
+				}
+			}
 			pf.extra = pf.extra[:n]
 			if !ok {
 				return false, fmt.Sprintf("phi edge %d: %s", i, why)
@@ -456,6 +469,11 @@ func (pf *parserFacts) proveRange(v ssa.Value, at *ssa.BasicBlock, lo, hi int64,
 	if lo2, hi2, ok := countedLoopRange(v); ok && lo2 >= lo && hi2 <= hi {
 		return true, fmt.Sprintf("counted loop variable in [%d,%d]", lo2, hi2)
 	}
+	return pf.proveByGuards(v, at, lo, hi)
+}
+
+// proveByGuards: the conditions that dominate `at` (and the facts carried along a phi edge) bound the term of v itself.
+func (pf *parserFacts) proveByGuards(v ssa.Value, at *ssa.BasicBlock, lo, hi int64) (bool, string) {
 	// guards on the access path
 	fn := at.Parent()
 	vw := pf.view(fn)
@@ -953,6 +971,15 @@ func (pf *parserFacts) allocLeaves(a *ssa.Alloc, field *types.Var, index int64, 
 	if depth > 8 {
 		return nil, false
 	}
+	// two locals assigned to each other (`driven, resting = resting, driven`): the cycle adds no value of its own
+	if pf.leavesBusy == nil {
+		pf.leavesBusy = map[*ssa.Alloc]bool{}
+	}
+	if pf.leavesBusy[a] {
+		return nil, true
+	}
+	pf.leavesBusy[a] = true
+	defer delete(pf.leavesBusy, a)
 	var found []leafVal
 	for _, r := range *a.Referrers() {
 		switch y := r.(type) {
